@@ -300,3 +300,74 @@ PROPS["C16"] = {
     "technique": "symbolic execution with z3 (bounded-exhaustive box, proxies concretised at the numpy boundary): "
                  "table entries vs memoised planner, and streams of both code paths compared action by action",
 }
+
+
+def c17_jobs(tier):
+    q = tier == "quick"
+    N = 6 if q else 12
+    jobs = []
+    for cls in ("Multistage", "Mixed", "TwoLevel") + REVOLVE_FAMILY:
+        jobs.append(_job("domain", "%s/N=%d" % (cls, N), {"cls": cls, "nmax": N}, w=N))
+    jobs.append(_job("nadv_invalid", "all", {}))
+    return jobs
+
+
+PROPS["C17"] = {
+    "fatal": ["C17.", "X.exception", "X.runaway", "C02.premature_stop"], "jobs": c17_jobs,
+    "bounds": lambda tier: {"n": [-1, 6 if tier == "quick" else 12], "units": "0.. (symbolic, unbounded above; "
+                            "Revolve family: ram 0..3, disk 0..2)", "period": [-1, "N+1"],
+                            "storage": "all four StorageType members", "costs": "defaults (positive)"},
+    "outside": ["negative unit counts", "non-integer parameters", "(Revolve family, max_n=1, no RAM unit): the class "
+                "documentation restricts the family to snapshots_in_ram > 0 while the statement's domain admits "
+                "it; either outcome is accepted there, but a failure must precede any action"],
+    "trusted": ["the validity predicate transcribed from the property statement (lemmas.h_domain)", "z3"],
+    "stubs": STUBS, "assumptions": [],
+    "technique": "symbolic execution with z3 over a parameter box around the domain boundary; constructor "
+                 "guards are comparisons, so a path covers a range of n / unit counts",
+}
+
+
+def c19_jobs(tier):
+    q = tier == "quick"
+    return [_job("periodic", "cm=%d" % cm, {"cm": cm, "nmax": 16 if q else 40, "unwind": 3 if q else 5},
+                 w=cm, deadline=3000) for cm in range(1, (3 if q else 4) + 1)]
+
+
+PROPS["C19"] = {
+    "fatal": ["C19."], "jobs": c19_jobs,
+    "bounds": lambda tier: {"ram units": [1, 3 if tier == "quick" else 4], "n": [1, 16 if tier == "quick" else 40],
+                            "costs": "symbolic reals with (wd+rd) < C(cm+1+T,T)*uf, T=%d" % (3 if tier == "quick" else 5)},
+    "outside": ["cost ratios beyond the unwinding bound", "n beyond the bound", "IEEE rounding of (wd+rd)/uf"],
+    "trusted": ["Aupy & Herrmann (2017) closed form, transcribed in oracles.m_AH", "Griewank & Walther (2000)", "z3"],
+    "stubs": STUBS, "assumptions": [COST_ASSUMPTION, PERIODIC_ASSUMPTION],
+    "technique": "symbolic execution with z3: the period loop is run on symbolic costs (ratio compared by "
+                 "cross-multiplication, QF_LRA), each path fixes an interval of (wd+rd)/uf; for that region every "
+                 "n in the bound is generated and its disk write/read positions and per-segment step counts checked",
+}
+
+
+def c15_jobs(tier):
+    from .hist import SPECS
+    q = tier == "quick"
+    jobs = [_job("hist", "target=%d/%s" % (i, SPECS[i]["cls"]), {"target": i, "H": 2 if q else 2, "tier": tier},
+                 w=10, deadline=3000) for i in range(len(SPECS))]
+    for j in jobs:
+        # no symbolic value flows into the code here (only solver-enumerated choice indices), so the
+        # concrete twin run of a path would be the identical execution: skipped
+        j["validate"] = False
+    return jobs
+
+
+PROPS["C15"] = {
+    "fatal": ["C15."], "jobs": c15_jobs,
+    "bounds": lambda tier: {"history_length": 2, "alphabet": "27 operation instances" if tier == "quick" else "72 operation instances",
+                            "targets": 21, "observer_patterns": 3, "interleaved_partner": "none or one of 4 live schedules",
+                            "baseline": "streams computed in a fresh interpreter (subprocess)"},
+    "outside": ["histories longer than 2 operations", "parameters outside the instance list (chosen to collide on memo keys)",
+                "threads"],
+    "trusted": ["z3 (enumeration of feasible choice vectors and certificate of exhaustion)"],
+    "stubs": STUBS, "assumptions": [],
+    "technique": "symbolic execution with z3 over a discrete history space (solver-enumerated choice vectors, exhaustion "
+                 "certified by unsat); target stream compared with a fresh-interpreter baseline. Little solver leverage: "
+                 "the inputs are discrete choices (stated in DESIGN.md section 7)",
+}
